@@ -1,0 +1,221 @@
+//go:build verif
+
+package dkg
+
+import (
+	"math/big"
+
+	"github.com/bnb-chain/tss-lib/ecdsa/keygen"
+	"github.com/bnb-chain/tss-lib/tss"
+	"github.com/ipfs/go-log/v2"
+
+	"github.com/keep-network/keep-core/pkg/net"
+	"github.com/keep-network/keep-core/pkg/protocol/group"
+	"github.com/keep-network/keep-core/pkg/protocol/state"
+	"github.com/keep-network/keep-core/pkg/tecdsa/common"
+)
+
+// Verification hooks for property C07 (thin wrappers, no behaviour of their own).
+
+// VerifNewPreParams wraps tss-lib pre-parameters so that they can be marshalled
+// and fed to the executor's pool through its persistence handle.
+func VerifNewPreParams(data *keygen.LocalPreParams) *PreParams {
+	return newPreParams(data)
+}
+
+// VerifProbe holds a member built by newMember and one instance of every key
+// generation state, all sharing one message history like in a real execution.
+type VerifProbe struct {
+	member *member
+	base   *state.BaseAsyncState
+	states []state.AsyncState
+}
+
+// VerifMessageKinds is the number of message kinds VerifNewMessage knows.
+const VerifMessageKinds = 6
+
+// VerifStateKinds is the number of states of a VerifProbe.
+const VerifStateKinds = 6
+
+// VerifNewProbe builds the member with newMember, marks the given members with
+// the group's own marking functions and creates the states.
+func VerifNewProbe(
+	logger log.StandardLogger,
+	seed *big.Int,
+	memberIndex group.MemberIndex,
+	groupSize int,
+	dishonestThreshold int,
+	disqualify []group.MemberIndex,
+	inactive []group.MemberIndex,
+	membershipValidator *group.MembershipValidator,
+	sessionID string,
+) *VerifProbe {
+	m := newMember(
+		logger,
+		seed,
+		memberIndex,
+		groupSize,
+		dishonestThreshold,
+		membershipValidator,
+		sessionID,
+		nil,
+		1,
+	)
+	for _, index := range disqualify {
+		m.group.MarkMemberAsDisqualified(index)
+	}
+	for _, index := range inactive {
+		m.group.MarkMemberAsInactive(index)
+	}
+
+	base := state.NewBaseAsyncState()
+	ekpgm := m.initializeEphemeralKeysGeneration()
+	skgm := ekpgm.initializeSymmetricKeyGeneration()
+	trom := &tssRoundOneMember{symmetricKeyGeneratingMember: skgm}
+	trtm := trom.initializeTssRoundTwo()
+	trthm := trtm.initializeTssRoundThree()
+	fm := trthm.initializeFinalization()
+
+	return &VerifProbe{
+		member: m,
+		base:   base,
+		states: []state.AsyncState{
+			&ephemeralKeyPairGenerationState{BaseAsyncState: base, member: ekpgm},
+			&symmetricKeyGenerationState{BaseAsyncState: base, member: skgm},
+			&tssRoundOneState{BaseAsyncState: base, member: trom},
+			&tssRoundTwoState{BaseAsyncState: base, member: trtm},
+			&tssRoundThreeState{BaseAsyncState: base, member: trthm},
+			&finalizationState{BaseAsyncState: base, member: fm},
+		},
+	}
+}
+
+// Receive calls Receive of the given state.
+func (p *VerifProbe) Receive(stateIndex int, msg net.Message) error {
+	return p.states[stateIndex].Receive(msg)
+}
+
+// CanTransition calls CanTransition of the given state.
+func (p *VerifProbe) CanTransition(stateIndex int) bool {
+	return p.states[stateIndex].CanTransition()
+}
+
+// ShouldAcceptMessage calls the member's shouldAcceptMessage.
+func (p *VerifProbe) ShouldAcceptMessage(
+	senderID group.MemberIndex,
+	senderPublicKey []byte,
+) bool {
+	return p.member.shouldAcceptMessage(senderID, senderPublicKey)
+}
+
+// History returns, in storage order, the senders of the history entries kept
+// under the type of the given message kind.
+func (p *VerifProbe) History(kind int) []group.MemberIndex {
+	senders := make([]group.MemberIndex, 0)
+	for _, msg := range p.base.GetAllReceivedMessages(VerifNewMessage(kind, 0, "").Type()) {
+		senders = append(senders, msg.Payload().(message).SenderID())
+	}
+	return senders
+}
+
+// Received returns the senders of receivedMessages for the given kind.
+func (p *VerifProbe) Received(kind int) []group.MemberIndex {
+	senders := make([]group.MemberIndex, 0)
+	switch kind {
+	case 0:
+		for _, m := range receivedMessages[*ephemeralPublicKeyMessage](p.base) {
+			senders = append(senders, m.SenderID())
+		}
+	case 1:
+		for _, m := range receivedMessages[*tssRoundOneMessage](p.base) {
+			senders = append(senders, m.SenderID())
+		}
+	case 2:
+		for _, m := range receivedMessages[*tssRoundTwoMessage](p.base) {
+			senders = append(senders, m.SenderID())
+		}
+	case 3:
+		for _, m := range receivedMessages[*tssRoundThreeMessage](p.base) {
+			senders = append(senders, m.SenderID())
+		}
+	case 4:
+		for _, m := range receivedMessages[*tssFinalizationMessage](p.base) {
+			senders = append(senders, m.SenderID())
+		}
+	case 5:
+		for _, m := range receivedMessages[*resultSignatureMessage](p.base) {
+			senders = append(senders, m.SenderID())
+		}
+	}
+	return senders
+}
+
+// Operating returns the member's view of the operating members.
+func (p *VerifProbe) Operating() []group.MemberIndex {
+	return p.member.group.OperatingMemberIndexes()
+}
+
+// Misbehaved returns MisbehavedMembersIndexes of a result holding the member's group.
+func (p *VerifProbe) Misbehaved() []group.MemberIndex {
+	return (&Result{Group: p.member.group}).MisbehavedMembersIndexes()
+}
+
+// PartyKeys returns the member's own party key and the sorted party keys, as
+// produced by common.GenerateTssPartiesIDs and tss.SortPartyIDs.
+func (p *VerifProbe) PartyKeys() (*big.Int, []*big.Int) {
+	own, all := common.GenerateTssPartiesIDs(
+		p.member.id,
+		p.member.group.OperatingMemberIndexes(),
+		p.member.identityConverter,
+	)
+	var ownKey *big.Int
+	if own != nil {
+		ownKey = own.KeyInt()
+	}
+	keys := make([]*big.Int, 0)
+	for _, id := range tss.SortPartyIDs(all) {
+		keys = append(keys, id.KeyInt())
+	}
+	return ownKey, keys
+}
+
+// MemberIndexToKey calls the identity converter.
+func (p *VerifProbe) MemberIndexToKey(index group.MemberIndex) *big.Int {
+	return p.member.identityConverter.MemberIndexToTssPartyIDKey(index)
+}
+
+// KeyToMemberIndex calls the identity converter.
+func (p *VerifProbe) KeyToMemberIndex(key *big.Int) group.MemberIndex {
+	return p.member.identityConverter.TssPartyIDToMemberIndex(
+		tss.NewPartyID(key.Text(10), "", key),
+	)
+}
+
+// VerifMessage is what the probe needs from a protocol message.
+type VerifMessage interface {
+	SenderID() group.MemberIndex
+	SessionID() string
+	Type() string
+}
+
+// VerifNewMessage builds an (otherwise empty) protocol message of the given kind.
+func VerifNewMessage(
+	kind int,
+	senderID group.MemberIndex,
+	sessionID string,
+) VerifMessage {
+	switch kind {
+	case 0:
+		return &ephemeralPublicKeyMessage{senderID: senderID, sessionID: sessionID}
+	case 1:
+		return &tssRoundOneMessage{senderID: senderID, sessionID: sessionID}
+	case 2:
+		return &tssRoundTwoMessage{senderID: senderID, sessionID: sessionID}
+	case 3:
+		return &tssRoundThreeMessage{senderID: senderID, sessionID: sessionID}
+	case 4:
+		return &tssFinalizationMessage{senderID: senderID, sessionID: sessionID}
+	default:
+		return &resultSignatureMessage{senderID: senderID, sessionID: sessionID}
+	}
+}
